@@ -4,13 +4,19 @@ Run once on a reviewed tree; the baseline is a schema, not source text."""
 import json, os, sys
 sys.path.insert(0, os.path.dirname(os.path.dirname(os.path.dirname(os.path.abspath(__file__)))))
 from engine import facts
+from rules.C20 import Schema
 d = json.load(open(facts.ensure_proto()))
+SC = Schema(d)
 out = {}
-for fqn, m in sorted(d["local"].items()):
+for fqn, m in sorted(SC.local.items()):
     e = {"kind": m["kind"], "tags": {}}
     for f in m["fields"]:
         for t in f["tags"]:
             e["tags"][t] = [f["kind"], f["label"]] if m["kind"] != "enum" else [f["name"], ""]
+    # message-typed fields: the FQN of the type they carry (or ["ext", path] for types outside the bindings)
+    refs = {t: (list(r) if isinstance(r, tuple) else r) for t, r in SC.refs(fqn).items()}
+    if refs:
+        e["refs"] = refs
     out[fqn] = e
 p = os.path.join(os.path.dirname(os.path.dirname(os.path.dirname(os.path.abspath(__file__)))), "baselines", "proto_schema.json")
 json.dump(out, open(p, "w"), indent=0, sort_keys=True)
